@@ -413,6 +413,19 @@ def accept : Value → List Nat
   | .sliceFloat64 vs => if vs.isEmpty then [] else [26]
   | .sliceString vs => if vs.isEmpty then [] else [27]
 
+/-- `Value.Uint8()`, `Value.Int8()`, `Value.Uint16()`: the stored number, or the invalid sentinel for a value of another type -/
+def uint8Of : Value → Nat
+  | .uint8 v => v % 2 ^ 8
+  | _ => uint8Invalid
+
+def int8Of : Value → Nat
+  | .int8 v => v % 2 ^ 8
+  | _ => sint8Invalid
+
+def uint16Of : Value → Nat
+  | .uint16 v => v % 2 ^ 16
+  | _ => uint16Invalid
+
 /-! ### `Value.Any()` and `proto.Any(v)` -/
 
 /-- the Go values `proto.Any` distinguishes (a named type is its underlying kind, except
